@@ -74,7 +74,12 @@ func (in *inst) Exec(t int, op vdrv.Op) string {
 
 func (in *inst) Final() string {
 	sz := in.q.Size()
-	var d []string
+	var d, tr []string
+	if it := in.q.Iterator(); it != nil {
+		for it.HasNext() {
+			tr = append(tr, strconv.FormatInt(it.Next().(int64), 10))
+		}
+	}
 	for {
 		x := in.q.Poll()
 		if x == nil {
@@ -82,7 +87,7 @@ func (in *inst) Final() string {
 		}
 		d = append(d, strconv.FormatInt(x.(int64), 10))
 	}
-	return fmt.Sprintf("s%d d%s", sz, strings.Join(d, ","))
+	return fmt.Sprintf("s%d t%s d%s", sz, strings.Join(tr, ","), strings.Join(d, ","))
 }
 
 func newInst(s *vdrv.Scenario) vdrv.Instance {
@@ -280,8 +285,15 @@ func monitor(s *vdrv.Scenario, h *vdrv.History, fin string, aborted string) stri
 	}
 	// final state: s<size> d<drained>
 	var sz int
-	var dstr string
-	fmt.Sscanf(fin, "s%d d%s", &sz, &dstr)
+	var dstr, tstr string
+	ff := strings.Fields(fin)
+	if len(ff) == 3 {
+		sz, _ = strconv.Atoi(ff[0][1:])
+		tstr, dstr = ff[1][1:], ff[2][1:]
+	}
+	if s.Kind == "jdk" && tstr != dstr {
+		return fmt.Sprintf("at quiescence a full iteration returned [%s] but the drain returned [%s]", tstr, dstr)
+	}
 	var drained []int64
 	if dstr != "" {
 		for _, x := range strings.Split(dstr, ",") {
